@@ -71,6 +71,13 @@ Rx ==
        /\ bad' = bad
             \cup Flag(\A i \in Idx : d[i] <= inDgram[i], "MoreFramesProcessedThanDelivered")
             \cup Flag(\A i \in Idx : newUsed[i] <= newBudget[i], "PacketProcessedTwiceOrUnauthenticated")
+            \* ... and not fewer: when the connection authenticated every packet of a datagram for the
+            \* first time and stays open, every frame in it was taken in (nothing after some frame is skipped)
+            \cup Flag(~(e.open /\ ~e.stchange /\ e.kind = "data" /\ numbered = all /\ fresh = all
+                        /\ e.authed = Len(pks) /\ Len(pks) > 0
+                        \* (a CONNECTION_CLOSE frame ends the processing of its packet; index 4 of the frame statistics)
+                        /\ inDgram[4] = 0)
+                      \/ \A i \in Idx : d[i] = inDgram[i], "FrameOfProcessedPacketSkipped")
             \* (quinn counts an accepted Version Negotiation packet as "authenticated")
             \cup Flag(e.authed <= Len(pks) + (IF e.kind \in {"vn", "retry"} THEN 1 ELSE 0),
                        "AuthenticatedMoreThanDelivered")
